@@ -114,7 +114,7 @@ impl<'a> G<'a> {
             if i > 0 { if prev_wordlike && wordlike { self.plain_ws(); } else if self.u.coin(1, 2) { self.plain_ws(); } }
             match k {
                 0 => { let s = self.pick(IDENTS); self.p(s); }
-                1 => { if self.u.coin(1, 3) { let s = self.pick(&["$char10.", "best12.2", "date9.", "$20.", "8.", "$upcase8.", "comma12."]); self.p(s); } else { let s = self.pick(IDENTS); self.p(s); } }
+                1 => { if self.u.coin(1, 3) { let s = self.pick(&["$char10.", "best12.2", "date9.", "$20.", "8.", "$upcase8.", "comma12.", "$fmtü5.", "$тест."]); self.p(s); } else { let s = self.pick(IDENTS); self.p(s); } }
                 2 => { let s = self.pick(OPEN_KW); self.p(s); }
                 3 => self.number(),
                 4 => { if self.u.coin(1, 8) { self.str_with_stat(); } else { self.str_lit(); } }
